@@ -11,7 +11,7 @@ PID = "C08"; COQ_TARGET = "C08"
 # NOTE (DESIGN.md, observations): simulating through an interface built BEFORE an edit is not in the alphabet: check_interface only
 # tests Model.initialized, so once anything re-initialises the model a stale interface is accepted and runs with the old sizes
 # (heap corruption observed: "free(): invalid next size").  Interfaces are still built in the middle of histories (and dropped).
-RULE = ("random histories (length 6-40 quick) over {create reaction (mass action, Hill, general; delays), create parameter, set parameter values, set species values, create assignment rule, "
+RULE = ("random histories (length 6-40 quick) over {create reaction (mass action, Hill, general; delays), create parameter, set parameter values, set species values, create rule (assignment / ODE / use-before-define assignment pair), "
         "initialise, build an interface (used later), simulate deterministic / stochastic / safe / delay / volume, seed}; final definition rebuilt from scratch; "
         "non-trivial = the history contains a simulation or an initialisation before the last edit")
 TRUSTED = ["hand model coq/Model/History.v (life cycle) tied by correspondence on species order and matrices", "shared numpy arrays / the global simulator pointer are covered by the history runs only"]
@@ -43,14 +43,24 @@ def gen_case(rng, maxlen):
         elif k < 0.34: ops.append(["set_params", {rng.choice(["kA", "kB", "kg"]): rng.choice([0.05, 0.2, 0.4, 0.8])}])
         elif k < 0.46: ops.append(["set_species", {rng.choice(SP): float(rng.randint(0, 9))}])
         elif k < 0.52: ops.append(["create_parameter", rng.choice(["kA", "kB", "kg", "unused_p"]), rng.choice([0.1, 0.5])])
-        elif k < 0.57: ops.append(["rule", "Rz%d" % len(ops), rng.choice(sorted(species))])
-        elif k < 0.67: ops.append(["initialize"])
-        elif k < 0.74: ops.append(["interface"])
+        # rule kinds: a plain assignment; an ODE rule (applying the rule list twice per step doubles its Euler step); a pair in
+        # use-before-define order U = Uv + 1; Uv = 2*src (one pass and two passes differ)  -- seeded change S_C08
+        elif k < 0.60: ops.append(["rule", "Rz%d" % len(ops), rng.choice(sorted(species)), rng.choice(["assign", "ode", "ubd"])])
+        elif k < 0.69: ops.append(["initialize"])
+        elif k < 0.75: ops.append(["interface"])
         elif k < 0.95: ops.append(["simulate", rng.choice(["det", "ssa", "safe", "delay", "volume"]), rng.randint(1, 2**31)])
         else: ops.append(["seed", rng.randint(1, 2**31)])
     # make sure every named parameter ends with a value and every species with a count
     ops.append(["set_params", {"kA": 0.3, "kB": 0.15, "kg": 0.6}])
     return {"ops": ops, "seed": rng.randint(1, 2**31)}
+
+def _rule_kind(op): return op[3] if len(op) > 3 else "assign"
+def _rule_species(op): return [op[1], op[1] + "v"] if _rule_kind(op) == "ubd" else [op[1]]
+def _rule_tuples(op):
+    k = _rule_kind(op)
+    if k == "assign": return [("assignment", {"equation": "%s = 2*%s + 1" % (op[1], op[2])})]
+    if k == "ode": return [("ode", {"equation": "0.5*%s + 1" % op[2], "target": op[1]})]
+    return [("assignment", {"equation": "%s = %sv + 1" % (op[1], op[1])}), ("assignment", {"equation": "%sv = 2*%s" % (op[1], op[2])})]
 
 def gen_cases(seed, tier):
     rng = random.Random(seed * 1201 + 8); n, ml = (70, 40) if tier == "quick" else (600, 400)
@@ -92,7 +102,10 @@ def impl_case(case):
         elif k == "set_species": M.set_species(dict(op[1]))
         elif k == "create_parameter": M.create_parameter(op[1], op[2])
         elif k == "rule":
-            M._add_species(op[1]); M.create_rule("assignment", {"equation": "%s = 2*%s + 1" % (op[1], op[2])}); rules.append([op[1], op[2]])
+            for rt in _rule_tuples(op):
+                for nm in _rule_species(op):
+                    M._add_species(nm)
+                M.create_rule(*rt); rules.append(rt)
         elif k == "initialize":
             try: M.py_initialize()
             except ValueError: pass        # a parameter still without a value: the history goes on
@@ -124,14 +137,14 @@ def impl_case(case):
     order = sorted(M.get_species2index(), key=lambda s: M.get_species2index()[s])
     fresh = Model(species=order, reactions=[tuple(x if not isinstance(x, dict) else dict(x) for x in r) for r in rx_defs],
                   parameters=[(k, v) for k, v in pd.items() if not k.startswith("DummyVar")],
-                  rules=[("assignment", {"equation": "%s = 2*%s + 1" % (a, b)}) for a, b in rules], initial_condition_dict={s: (0.0 if v == -1 else v) for s, v in spd.items()})
+                  rules=[(a, dict(b)) for a, b in rules], initial_condition_dict={s: (0.0 if v == -1 else v) for s, v in spd.items()})
     out = {"hist": _observe(M, case["seed"]), "fresh": _observe(fresh, case["seed"]), "problems": problems, "order": order}
     return out
 
 def driver_line(case, r):
     if not r or "hist" not in r: return None
     names = r["order"]
-    allnames = list(SP) + [op[1] for op in case["ops"] if op[0] == "rule"]
+    allnames = list(SP) + [nm for op in case["ops"] if op[0] == "rule" for nm in _rule_species(op)]
     nid = {n: i for i, n in enumerate(allnames)}
     toks = ["c08hist"]
     ops = []
@@ -139,7 +152,8 @@ def driver_line(case, r):
         if op[0] == "reaction":
             t = op[1]; d_re, d_pr = (t[5], t[6]) if len(t) == 8 else ([], [])
             ops.append(["rx"] + [str(len(t[0]))] + [str(nid[s]) for s in t[0]] + [str(len(t[1]))] + [str(nid[s]) for s in t[1]] + [str(len(d_re))] + [str(nid[s]) for s in d_re] + [str(len(d_pr))] + [str(nid[s]) for s in d_pr])
-        elif op[0] == "rule": ops.append(["sp", str(nid[op[1]])])
+        elif op[0] == "rule":
+            for nm in _rule_species(op): ops.append(["sp", str(nid[nm])])
         # set_species / set_params only write values of names that exist (they warn otherwise): no life-cycle effect
         elif op[0] == "initialize": ops.append(["init"])
         elif op[0] == "interface": ops.append(["iface"])
@@ -151,7 +165,7 @@ def driver_line(case, r):
 def compare(case, r, out):
     if not r or "hist" not in r: return "implementation failed: %s" % json.dumps(r)[:300]
     toks = out.split(); i = toks.index("S")
-    allnames = list(SP) + [op[1] for op in case["ops"] if op[0] == "rule"]
+    allnames = list(SP) + [nm for op in case["ops"] if op[0] == "rule" for nm in _rule_species(op)]
     order = [allnames[int(t)] for t in toks[1:i]]
     if order != r["hist"]["order"]: return "species order: model %r implementation %r" % (order, r["hist"]["order"])
     j = toks.index("SD"); nrx = len(r["hist"]["S"][order[0]]) if order else 0
@@ -183,7 +197,7 @@ def nontrivial(case):
 def key(case): return json.dumps(case, sort_keys=True)
 def stats(cases):
     from collections import Counter
-    return {"op_kinds": dict(Counter(o[0] for c in cases for o in c["ops"])), "len_mean": sum(len(c["ops"]) for c in cases) / len(cases)}
+    return {"op_kinds": dict(Counter(o[0] for c in cases for o in c["ops"])), "rule_kinds": dict(Counter(_rule_kind(o) for c in cases for o in c["ops"] if o[0] == "rule")), "len_mean": sum(len(c["ops"]) for c in cases) / len(cases)}
 def _valid(ops):
     """every species a Hill / general law or a rule reads has been introduced by an earlier reaction"""
     seen = set()
